@@ -30,6 +30,7 @@ TMP = '/tmp/C12'
 A_SC, B_SC, C_SC = 12, 6, 8
 
 ASSUMPTIONS = [
+    'tie by translation, group envledger (C12_source_units .. C12_source_getprice, Gen/SrcEnvLedger.v): the reducers convert.get_units/get_cost/get_value/convert_amount/convert_position, Inventory.reduce and prices.get_price are the primitives of Model/PrimsEnvLedger.v (= Model/Inventory.v over an arbitrary price function); currencies are interned, str.upper on a currency is an abstract function; context.tables[\'prices\'].price_map is a parameter of the translated functions; the PyMini interpreter is the trusted semantics of the Python fragment',
     'beancount.core.inventory.Inventory, beancount.core.convert and the price map (prices.get_price) are Beancount code: '
     'modelled in Model/Inventory.v (price lookup abstract: a table computed with prices.get_price itself), validated by this '
     'correspondence, not verified',
@@ -1263,6 +1264,10 @@ def generate():
     from . import gen_src
     out = gen_src.generate('ledger_balance')
     out['src_ledger_balance_row'] = _row_census()
+    # group `envledger` (C12_source_units .. C12_source_getprice): coq/Gen/SrcEnvLedger.v from the registered functions
+    from . import src_envledger
+    out.update(gen_src.generate('envledger'))
+    out.update(src_envledger.report())
     return out
 
 
